@@ -8,9 +8,10 @@ EvOK(ev) ==
     [] ev.k = "exc_wrap" ->
          /\ Obs(Wrap(ev.in)) = ev.out
          /\ ev.same = (ev.in.kind = "protocol")                 \* identity on errors that already are protocol exceptions
-         /\ ev.isin                                             \* the cause stays reachable through errors.Is
+         /\ ev.isin = Comparable(ev.in)                         \* the cause stays reachable through errors.Is (which cannot
+                                                                \* identify a value of an uncomparable type, and must not panic)
          /\ (ev.in.kind # "protocol") => ev.unwrapsame          \* ... and Unwrap returns exactly it
-         /\ ev.iscause                                          \* ... and so does everything the given error wraps itself
+         /\ ev.iscause = (~IsErr(ev.in.cause) \/ Comparable(ev.in.cause))   \* ... and so does everything the given error wraps itself
     [] ev.k = "exc_is" -> ev.res = ErrorsIs(ev.x, ev.t)
     [] OTHER -> TRUE
 TraceInit == l = 1
